@@ -33,6 +33,16 @@ def main(pid, path):
     handler = REPLAYERS.get(kind)
     if handler is not None:
         return handler(rec)
+    ob = rec.get("obligation") or ""
+    if ".S18[" in ob or ".S19[" in ob:
+        from . import s18optional
+
+        n, r = (s18optional.native_witness if ".S18[" in ob else s18optional.native_witness_opt)()
+        if r is None:
+            print(f"recorded input: {w.get('input')}\nreplay: the real function agrees with its specification on all {n} concrete calls of the battery")
+            return 0
+        print(f"input:    {r['input']}\n{r['why']}")
+        return 1
     if w.get("source"):
         return _generic(w)
     print("no executable replay recorded for this obligation (no-failing-input-found); verifier output:")
